@@ -50,7 +50,7 @@ import (
 
 type Case struct {
 	Issue  string `json:"issue"`  // both | dbonly | extonly | none | badext | badext+db
-	State  string `json:"state"`  // present | removed | replaced | uninit | base
+	State  string `json:"state"`  // present | removed | replaced | renamed | uninit | base
 	D      bool   `json:"d"`      // DisableRenewal claim at renew time
 	A      bool   `json:"a"`      // AllowRenewalAfterExpiry claim at renew time
 	Custom string `json:"custom"` // n | a | r  (AuthorizeRenewFunc)
@@ -68,7 +68,7 @@ type Case struct {
 
 var (
 	issueKinds = []string{"both", "dbonly", "extonly", "none", "badext", "badext+db"}
-	states     = []string{"present", "removed", "replaced", "uninit", "base"}
+	states     = []string{"present", "removed", "replaced", "renamed", "uninit", "base"}
 	customs    = []string{"n", "a", "r"}
 	times      = []string{"valid", "nyv", "expired"}
 	revs       = []string{"no", "yes", "err"}
@@ -136,9 +136,11 @@ func newKey() *jose.JSONWebKey {
 
 func bp(b bool) *bool { return &b }
 
+// jwkProv: provisioners carry an explicit, name-independent id (as provisioners managed through
+// the admin API do), so that "same id, other name" and "same name, other id" can both be set up.
 func jwkProv(key *jose.JSONWebKey, claims *provisioner.Claims, opts *provisioner.Options) *provisioner.JWK {
 	pub := key.Public()
-	return &provisioner.JWK{Type: "JWK", Name: provName, Key: &pub, Claims: claims, Options: opts}
+	return &provisioner.JWK{ID: "id-" + key.KeyID, Type: "JWK", Name: provName, Key: &pub, Claims: claims, Options: opts}
 }
 
 const badExtTemplate = `{"subject": {{ toJson .Subject }}, "sans": {{ toJson .SANs }}, "keyUsage": ["digitalSignature"], "extKeyUsage": ["serverAuth","clientAuth"],
@@ -204,6 +206,12 @@ func (w *world) renewAuthority(c Case) *fixture.CA {
 		provs = provisioner.List{jwkProv(w.key1, claims, nil)}
 	case "replaced":
 		provs = provisioner.List{jwkProv(w.key2, claims, nil)}
+	case "renamed":
+		// the recorded provisioner (same id) now has another name and the claims of the case; a
+		// different provisioner (other key, other id, default claims) has taken over the old name
+		rn := jwkProv(w.key1, claims, nil)
+		rn.Name = provName + "-renamed"
+		provs = provisioner.List{rn, jwkProv(w.key2, nil, nil)}
 	case "uninit":
 		// same id, inconsistent claims: Init fails, the collection holds provisioner.Uninitialized
 		provs = provisioner.List{jwkProv(w.key1, &provisioner.Claims{
@@ -242,6 +250,11 @@ func provAt(c Case, byID bool) string {
 			return "gone"
 		}
 		return ctl
+	case "renamed": // by id: the recorded provisioner with the case's claims; by name: the newcomer
+		if byID {
+			return ctl
+		}
+		return fmt.Sprintf("ctl:00%s", c.Custom)
 	case "uninit":
 		return "uninit"
 	case "base": // SSHPOP id is "sshpop/p"
@@ -393,6 +406,11 @@ func (w *world) renewToken(p prepared) string {
 func tokenBits(c Case) string {
 	b := map[string]string{"ok": "111111", "issp": "111111", "garbage": "011111", "badsig": "101111",
 		"reuse": "110111", "sub": "111011", "exp": "111011", "aud": "111101", "iss": "111110"}
+	if c.Tok == "issp" && c.State == "renamed" && (c.Issue == "both" || c.Issue == "dbonly" || c.Issue == "badext+db") {
+		// the old-style issuer claim is the provisioner *name*; the provisioner resolved through the
+		// database id is the renamed one, whose name is no longer the one in the token
+		return "111110"
+	}
 	return b[c.Tok]
 }
 
@@ -523,12 +541,36 @@ func fixedCases() []Case {
 		add(Case{Issue: "both", State: st, Custom: "n", Time: "valid", Rev: "no", RA: true})
 		add(Case{Issue: "dbonly", State: st, D: true, Custom: "n", Time: "valid", Rev: "no", RA: true, Rekey: true})
 	}
+	// identity of the recorded provisioner: the database names an id, the extension a name; after a
+	// rename plus name reuse they resolve to different provisioners and the id must win
+	for _, is := range issueKinds {
+		for _, d := range []bool{false, true} {
+			for _, tm := range times {
+				add(Case{Issue: is, State: "renamed", D: d, A: !d, Custom: "n", Time: tm, Rev: "no", Rekey: d})
+				add(Case{Issue: is, State: "replaced", D: d, A: !d, Custom: "n", Time: tm, Rev: "no", Rekey: !d})
+			}
+		}
+	}
+	// revocation against every other gate that could let the certificate through: validity window
+	// x allow-after-expiry x how the provisioner resolves x entry x custom func (a revoked
+	// certificate stays refused whatever its age and whatever the claims say)
+	for _, tm := range times {
+		for _, a := range []bool{false, true} {
+			for k, is := range [][2]string{{"both", "present"}, {"dbonly", "present"}, {"extonly", "present"}, {"none", "removed"}, {"both", "replaced"}, {"both", "renamed"}} {
+				add(Case{Issue: is[0], State: is[1], A: a, Custom: "n", Time: tm, Rev: "yes", Rekey: k%2 == 1})
+				add(Case{Issue: is[0], State: is[1], A: a, Custom: "n", Time: tm, Rev: "yes", Entry: "token", Tok: "ok"})
+			}
+			add(Case{Issue: "both", State: "present", A: a, Custom: "a", Time: tm, Rev: "yes"})
+			add(Case{Issue: "both", State: "present", A: a, Custom: "n", Time: tm, Rev: "err"})
+			add(Case{Issue: "both", State: "present", A: a, Custom: "n", Time: tm, Rev: "yes", RA: true, Rekey: true})
+		}
+	}
 	// renew-token entry: every kind of token against every way the provisioner resolves, with and
 	// without RA information in the database record (the audience of an RA's token is not compared)
 	distinctToks := []string{"ok", "issp", "garbage", "badsig", "reuse", "sub", "exp", "aud", "iss"}
 	for _, tk := range distinctToks {
 		for _, is := range []string{"both", "dbonly", "badext+db"} {
-			for _, st := range []string{"present", "replaced", "uninit", "removed"} {
+			for _, st := range []string{"present", "replaced", "renamed", "uninit", "removed"} {
 				for _, ra := range []bool{false, true} {
 					add(Case{Issue: is, State: st, A: true, Custom: "n", Time: "valid", Rev: "no", Entry: "token", Tok: tk, RA: ra})
 				}
